@@ -26,7 +26,7 @@ theorem world_step_reach (c : Cfg) (w : World) (i : Nat) (h : Reach c w.st) : Re
     split
     · exact h
     · rename_i s' t' ev hs
-      rcases stepThread_is_op c w.st t s' t' ev hs with rfl | ⟨op, rfl⟩
+      rcases stepThread_is_op c w.st _ s' t' ev hs with rfl | ⟨op, rfl⟩
       · exact h
       · obtain ⟨ops, hops⟩ := h
         refine ⟨ops ++ [op], ?_⟩
@@ -193,6 +193,36 @@ theorem world_visible_only_after_validation (c : Cfg) (ths : List Th)
       (probe = true → live = false) := by
   obtain ⟨j, t, hj, tr, now, probe, live, rfl, hp⟩ := (winv_run c _ sched (winv_init c ths hstart)).looked k h
   exact ⟨j, tr, now, probe, live, hj, hp⟩
+
+/-- **A reload takes effect at once**: a worker that reads the covert policy after the configuration
+reload has run (its step after `track`) finds the blocklisted covert address and ends there — it
+never reaches the liveness probe or the validate step — while one that read it before goes on under
+the policy it saw. -/
+theorem policy_read_after_reload_drops (c : Cfg) (w : World) (i : Nat) (k : Key) (tr now : Nat)
+    (cov probe live : Bool) (hi : w.ths[i]? = some (.ingest k tr now cov probe live .afterTrack))
+    (hr : reloaded w.ths = true) :
+    (w.step c i).ths[i]? = some (.ingest k tr now false probe live .done) ∧ (w.step c i).st = w.st ∧
+    (w.step c i).evs = w.evs := by
+  have hlt : i < w.ths.length := by
+    rcases Nat.lt_or_ge i w.ths.length with h | h
+    · exact h
+    · rw [List.getElem?_eq_none h] at hi; cases hi
+  refine ⟨?_, ?_, ?_⟩ <;>
+    simp only [World.step, hi, hr, applyPolicy, stepThread, Bool.not_true, Bool.and_false, Bool.not_false,
+      if_true, List.append_nil]
+  rw [List.getElem?_set_self hlt]
+
+theorem policy_read_before_reload_goes_on (c : Cfg) (w : World) (i : Nat) (k : Key) (tr now : Nat)
+    (probe live : Bool) (hi : w.ths[i]? = some (.ingest k tr now true probe live .afterTrack))
+    (hr : reloaded w.ths = false) :
+    (w.step c i).ths[i]? = some (.ingest k tr now true probe live (if probe then .probing else .beforeRegister)) := by
+  have hlt : i < w.ths.length := by
+    rcases Nat.lt_or_ge i w.ths.length with h | h
+    · exact h
+    · rw [List.getElem?_eq_none h] at hi; cases hi
+  simp only [World.step, hi, hr, applyPolicy, stepThread, Bool.not_false, Bool.and_true, Bool.not_true,
+    Bool.false_eq_true, if_false]
+  cases probe <;> simp [List.getElem?_set_self hlt]
 
 /-! ## whole-thread serialisability: stated, NOT claimed -/
 
